@@ -118,3 +118,14 @@ claim('C04', 'Coq theorems by induction over the construct syntax (model of the 
       'text is evaluated by the same eval as the interpreter in the model: that the text means the expression is C11. Eight repaired defects '
       '(F3, F22-F28). FlagsEnum, Peek, Union with a selector and PascalString (instance-level emitter) are outside the theorem, inside the oracles.',
       'DESIGN.md 6/C04')
+claim('C19', 'Coq model of the exporter ladder and of a reference reading of the schema dialect; theorem for all flat structs; emitted-schema / reading / layout correspondence; schema-vs-parse layout oracle',
+      'model/Ksy.v: ksy_emit (the _compileseq/_compileprimitivetype/_compilefulltype fallback ladder with the id allocator over the per-class '
+      'emitters), ksy_interp (Kaitai meaning of type, size, size-eos, contents, repeat*, if, terminator*, pad-right, encoding, enum, switch-on, user '
+      'types), ksy_layout (the construct itself). ksy_describes_flat_struct: for every Struct of named flat members and every input it parses, '
+      'reading the emitted schema gives every field the same identifier, extent and value (induction over the member list). ksy_emit is compared '
+      'with the dictionary the real export_ksy() produces (stub YAML dumper), ksy_interp with an independent Python reading, ksy_layout with an '
+      'instrumented parse, on generated exportable structs (integers, floats, bytes, strings in 5 encodings, flags, enums, nested structs, arrays, '
+      'ranges, prefixed, padded, conditionals, bit structs, constants with non-verbatim fields) - 31k cases thorough; the layout oracle compares '
+      'identifiers, extents (nested) and values on the library for all of them, including bit structs, pointers, flag sets and count-prefixed '
+      'arrays, which are outside the Coq model of the exporter. The dialect is construct\'s own and is judged against the Kaitai meaning of its '
+      'keys as written down in ksy_interp, not against the Kaitai compiler (not installed). Five repaired defects (F29-F33).', 'DESIGN.md 6/C19')
